@@ -104,6 +104,15 @@ func (s *Sched) leave(actor, idx int, err error) {
 	s.mu.Unlock()
 }
 
+// MarkCrashed records that an actor ended the way a crashed one does (called before Finish).
+func (s *Sched) MarkCrashed(actor int) {
+	s.mu.Lock()
+	if !s.actors[actor].crashed {
+		s.Trace = append(s.Trace, SchedEvent{Actor: actor, Class: "crash"})
+	}
+	s.mu.Unlock()
+}
+
 // Finish marks an actor as having returned.
 func (s *Sched) Finish(actor int) {
 	s.mu.Lock()
